@@ -32,9 +32,17 @@ fn c10_big(kind: u32, le: bool, tags: &[String], out: &mut Outcome) {
         1 => vec![WigSec::T1(vec![(0, 1, 9.0), (2, 3, 8.0)]), WigSec::T2(1, (0..n).map(|i| (10 + 2 * i, (i % 251) as f32 * 0.5 - 3.0)).collect())],
         2 => vec![WigSec::T1(vec![(0, 1, 9.0)]), WigSec::T3(10, 2, 1, (0..n).map(|i| (i % 127) as f32 * 0.25).collect())],
         3 => vec![WigSec::T1((0..n).map(|i| (2 * i, 2 * i + 1, (i % 509) as f32 * 0.125)).collect())],
+        // kind 5: sections that END on coordinates whose four bytes read as a much smaller number in the
+        // other byte order (65 536 = 00 01 00 00 reads as 256, 16 777 216 as 1, ...), one section each, in a
+        // tree of fan-out 2 (three and more levels): the ends of inner index entries are such numbers
+        5 => [8u32, 256, 65_536, 131_072, 262_144, 1_048_576, 16_777_216, 16_842_752, 33_554_432, 33_554_944]
+            .into_iter()
+            .enumerate()
+            .map(|(k, p)| WigSec::T1(vec![(p - 6, p - 4, k as f32 + 0.5), (p - 3, p, k as f32 + 0.25)]))
+            .collect(),
         _ => (0..5200u32).map(|k| WigSec::T3(100 * k, 10, 5, (0..10).map(|j| (k % 97) as f32 + j as f32 * 0.5).collect())).collect(),
     };
-    let size = 600_000u32;
+    let size = if kind == 5 { 40_000_000u32 } else { 600_000u32 };
     let spec = EncSpec {
         bed: false,
         le,
@@ -45,7 +53,7 @@ fn c10_big(kind: u32, le: bool, tags: &[String], out: &mut Outcome) {
         chrom_level_order: false,
         chrom_ids_in_given_order: false,
             chrom_ids_reverse_of_keys: false,
-        fanout: 64,
+        fanout: if kind == 5 { 2 } else { 64 },
         placement: Placement::LevelOrder,
         zooms: vec![],
         zoom_ips: 4,
@@ -60,6 +68,14 @@ fn c10_big(kind: u32, le: bool, tags: &[String], out: &mut Outcome) {
     let want_for = |s: u32, e: u32| -> Vec<(u32, u32, u32)> { items.iter().filter(|i| i.1 > s && i.0 < e).map(|i| (i.0.max(s), i.1.min(e), i.2.to_bits())).collect() };
     let last = items.last().map(|i| i.1).unwrap_or(0);
     let mut queries: Vec<(u32, u32)> = vec![(0, size), (0, 40), (last - 30, last), (last / 2 - 10, last / 2 + 10), (3 * (last / 4), 3 * (last / 4) + 25), (last - 1, last), (last / 3, last / 3 + 7)];
+    if kind == 5 {
+        // around every item, and from every item to the end
+        queries.clear();
+        for i in items.iter() {
+            queries.extend([(i.0.saturating_sub(1), i.0 + 1), (i.0, i.1), (i.1 - 1, i.1 + 1), (i.0, size), (0, i.1)]);
+        }
+        queries.push((0, size));
+    }
     if kind == 4 {
         // after the whole file has passed through the cache: the earliest blocks again
         queries.extend([(0, 45), (100, 150), (250, 460), (519_900, 520_000), (5, 6)]);
@@ -515,7 +531,7 @@ impl Check for C10 {
         let step = if tier == Tier::Quick { 9 } else { 3 };
         let tools: Vec<C10Case> = specs(tier).into_iter().step_by(step).map(|spec| C10Case { spec, tool: true, big: 0 }).collect();
         let template = specs(tier).into_iter().next().unwrap();
-        let bigs = [1u32, 2, 3, 4].into_iter().flat_map(move |big| {
+        let bigs = [1u32, 2, 3, 4, 5].into_iter().flat_map(move |big| {
             let t = template.clone();
             [true, false].into_iter().map(move |le| {
                 let mut spec = t.clone();
@@ -687,13 +703,18 @@ pub fn gen_c20(dir: &str, thorough: bool) {
         };
         let path = format!("{}/w{}.bw", dir, k);
         std::fs::write(&path, encode(&spec).bytes).unwrap();
+        // the same file with its zoom levels listed coarsest first (levels are found by value)
+        let twin = format!("{}/w{}t.bw", dir, k);
+        let mut tspec = spec.clone();
+        tspec.zooms.reverse();
+        std::fs::write(&twin, encode(&tspec).bytes).unwrap();
         let mut pb: Vec<Option<f32>> = vec![None; CL as usize];
         for (s, e, v) in &items {
             for b in *s..*e {
                 pb[b as usize] = Some(*v);
             }
         }
-        manifest.push(json!({"path": path, "kind": "bigwig", "chrom": "c", "length": CL, "per_base": pb, "items": items}));
+        manifest.push(json!({"path": path, "twin": twin, "kind": "bigwig", "chrom": "c", "length": CL, "per_base": pb, "items": items}));
     }
     for (k, li) in pick(nb, bl.len()).into_iter().enumerate() {
         let entries: Vec<(u32, u32, String)> = bl[li].iter().enumerate().map(|(i, (s, e))| (*s, *e, format!("e{}", i))).collect();
@@ -719,6 +740,10 @@ pub fn gen_c20(dir: &str, thorough: bool) {
         };
         let path = format!("{}/b{}.bb", dir, k);
         std::fs::write(&path, encode(&spec).bytes).unwrap();
+        let twin = format!("{}/b{}t.bb", dir, k);
+        let mut tspec = spec.clone();
+        tspec.zooms.reverse();
+        std::fs::write(&twin, encode(&tspec).bytes).unwrap();
         let mut depth = vec![0u32; CL as usize];
         for (s, e, _) in &entries {
             for b in *s..*e {
@@ -726,7 +751,7 @@ pub fn gen_c20(dir: &str, thorough: bool) {
             }
         }
         let pb: Vec<Option<f32>> = depth.iter().map(|d| if *d > 0 { Some(*d as f32) } else { None }).collect();
-        manifest.push(json!({"path": path, "kind": "bigbed", "chrom": "c", "length": CL, "per_base": pb, "items": entries}));
+        manifest.push(json!({"path": path, "twin": twin, "kind": "bigbed", "chrom": "c", "length": CL, "per_base": pb, "items": entries}));
     }
     // chromosomes of 17 x 1 000 001 and 17 x 1 000 003 bases covered by one interval: binned requests
     // whose span exceeds 2^24 (not representable in single precision) and whose bins end exactly on
